@@ -87,9 +87,13 @@ def main():
                 if os.path.exists(os.path.join(src, 'README.md')):
                     shutil.copy(os.path.join(src, 'README.md'), os.path.join(dst, 'README.md'))
             first = res['detected_by_own_check']
+            keep = {}
             if os.path.exists(os.path.join(dst, 'meta.json')):
                 with open(os.path.join(dst, 'meta.json')) as fh:
-                    first = json.load(fh).get('first_pass_detected', first)
+                    old_meta = json.load(fh)
+                first = old_meta.get('first_pass_detected', first)
+                # notes made by hand survive a re-vet
+                keep = {k: v for k, v in old_meta.items() if k in ('rebased', 'demo_adapted', 'retired', 'note')}
             meta = {
                 'property': prop,
                 'first_pass_detected': first,
@@ -101,6 +105,7 @@ def main():
                 'expect_rule': (checks.get(prop, {}).get('rules') or [''])[0].replace('rule=', '') or None,
                 'checks_reporting': checks,
             }
+            meta.update(keep)
             with open(os.path.join(dst, 'meta.json'), 'w') as fh:
                 json.dump(meta, fh, indent=1)
         return 0
